@@ -10,6 +10,8 @@ from .common import match_spec, short
 from .poisson import ext_sources, greens_chain, single_atom
 from .simtools import sim_configs, stepped_sim
 
+CASE_SPLIT = True     # orderings between different grid sizes are analysed case by case (regions.run_under_size_cases)
+
 
 def stage_table(run):
     """store stages as an ordered list of (callee, {array component name: (pieces, full box, version name)})"""
